@@ -32,6 +32,27 @@ def finish3 (s : St3) (t : Nat × Nat × Nat) (d lo hi : Nat) (flipOut : Bool) :
     let fp := findOrPush3 s1 node
     ({ fp.1 with finished := fp.1.finished.insert t fp.2 }, fp.2)
 
+/-- linear-use version of `finish3` for compiled code (see `finishFast`) -/
+def finish3Fast (s : St3) (t : Nat × Nat × Nat) (d lo hi : Nat) (flipOut : Bool) : St3 × Nat :=
+  match s with
+  | ⟨res, existing, finished, ne⟩ =>
+    let ne' : Bool := if lo = 1 ∨ hi = 1 then true else ne
+    if lo = hi then (⟨res, existing, finished.insert t lo, ne'⟩, lo)
+    else
+      let node : Node := if flipOut then ⟨d, hi, lo⟩ else ⟨d, lo, hi⟩
+      match existing[node]? with
+      | some i => (⟨res, existing, finished.insert t i, ne'⟩, i)
+      | none =>
+        let i := res.size
+        (⟨res.push node, existing.insert node i, finished.insert t i, ne'⟩, i)
+
+@[csimp] theorem finish3_eq_fast : @finish3 = @finish3Fast := by
+  funext s t d lo hi flipOut
+  obtain ⟨res, existing, finished, ne⟩ := s
+  unfold finish3 finish3Fast findOrPush3
+  by_cases h1 : lo = 1 ∨ hi = 1 <;> by_cases h2 : lo = hi <;> simp only [h1, h2, if_true, if_false]
+  all_goals (split <;> rename_i h <;> simp only [h])
+
 structure Ctx3 where
   A : Arr
   B : Arr
